@@ -10,4 +10,5 @@ for prop in "$@"; do
   echo "$out" | grep -E "VIOLATION|-> |error" | cut -c1-400 | head -8
 done
 git -C /repo checkout -- .
+(cd /verif/harness && GOFLAGS=-mod=mod GOPROXY=off GOSUMDB=off GOTOOLCHAIN=local CGO_ENABLED=0 go build -tags verif -o ../build/rvh . ) # rebuild the harness from the restored tree
 git -C /repo status --porcelain | head -3
